@@ -1425,9 +1425,9 @@ class Covout:
             self.progs[k] = v + self.sigma * np.random.randn(1)[0]
         # Perturb the interactions
         if self._interactions:
-            for k, v in self.interactions.items():
-                self.interactions[k] = v + self.sigma * np.random.randn(1)[0]
-            tokens = ["%s=%.4f" % ("+".join(k), v) for k, v in self.interactions.items()]
+            for k, v in self._interactions.items():
+                self._interactions[k] = v + self.sigma * np.random.randn(1)[0]
+            tokens = ["%s=%.4f" % ("+".join(k), v + self.baseline) for k, v in self._interactions.items()]  # nb. the cached interactions are stored relative to baseline
             self.imp_interaction = ",".join(tokens)
 
         self.update_outcomes()
